@@ -152,8 +152,12 @@ class Inotify:
         self._inotify_fd = inotify_fd
         self._lock = threading.Lock()
         self._closed = False
-        self._is_reading = True
-        self._kill_r, self._kill_w = os.pipe()
+        self._is_reading = False
+        try:
+            self._kill_r, self._kill_w = os.pipe()
+        except OSError:
+            os.close(inotify_fd)
+            raise
 
         # _check_inotify_fd will return true if we can read _inotify_fd without blocking
         if hasattr(select, "poll"):
@@ -186,10 +190,14 @@ class Inotify:
         self._event_mask = event_mask
         self._follow_symlink = follow_symlink
         self._is_recursive = recursive
-        if os.path.isdir(path):
-            self._add_dir_watch(path, event_mask, recursive=recursive)
-        else:
-            self._add_watch(path, event_mask)
+        try:
+            if os.path.isdir(path):
+                self._add_dir_watch(path, event_mask, recursive=recursive)
+            else:
+                self._add_watch(path, event_mask)
+        except OSError:
+            self._close_resources()
+            raise
         self._moved_from_events: dict[int, InotifyEvent] = {}
 
     @property
